@@ -15,7 +15,7 @@ QUICK = {
 }
 THOROUGH = {
     "npm": ["ManifestWrite-npm-names.cfg", "ManifestWrite-npm-conflicts.cfg"],
-    "maven": ["ManifestWrite-mvn-forms.cfg", "ManifestWrite-mvn-scopes.cfg", "ManifestWrite-mvn-layouts.cfg"],
+    "maven": ["ManifestWrite-mvn-forms.cfg", "ManifestWrite-mvn-scopes.cfg", "ManifestWrite-mvn-scopes3.cfg", "ManifestWrite-mvn-layouts.cfg"],
 }
 FINDINGS = {
     "C13-shared-property-leak": "pom.xml Write rewrites a property although another requirement that is not (consistently) updated reads the same definition: that requirement changes too",
